@@ -7,9 +7,12 @@ import sys
 import time
 
 ROOT = os.path.dirname(os.path.dirname(os.path.abspath(__file__)))
-HARNESS = os.path.join(ROOT, "harness")
-EVIDENCE = os.path.join(ROOT, "evidence")
-REPLAY = os.path.join(ROOT, "replay")
+# The registered commands use the defaults. lib/run_seeded_par.py points a worker at its own copy of the harness
+# (whose nuts-rs dependency is a scratch worktree carrying a seeded change) and at a scratch output directory.
+HARNESS = os.environ.get("VERIF_HARNESS_DIR", os.path.join(ROOT, "harness"))
+OUT_BASE = os.environ.get("VERIF_OUT_BASE", ROOT)
+EVIDENCE = os.path.join(OUT_BASE, "evidence")
+REPLAY = os.path.join(OUT_BASE, "replay")
 FINDINGS = os.path.join(ROOT, "known_findings.txt")
 
 ENV = dict(os.environ)
@@ -76,8 +79,8 @@ def load_findings():
 
 def run_binary(prop, tier, seed, replay, timeout, mode=None, exe=None, extra_env=None, runner=None):
     """Run the harness binary for one property; returns (report dict or None, status string)."""
-    os.makedirs(os.path.join(ROOT, "tmp"), exist_ok=True)
-    out = os.path.join(ROOT, "tmp", f"report-{prop}-{tier}-{mode or 'main'}-{os.getpid()}.json")
+    os.makedirs(os.path.join(OUT_BASE, "tmp"), exist_ok=True)
+    out = os.path.join(OUT_BASE, "tmp", f"report-{prop}-{tier}-{mode or 'main'}-{os.getpid()}.json")
     if os.path.exists(out):
         os.remove(out)
     cmd = (runner or []) + [exe or binary(), prop.lower(), "--tier", tier, "--seed", str(seed), "--out", out]
